@@ -9,8 +9,8 @@ CONSTANTS MaxPt,   \* candidate points are subsets of 0..MaxPt
           Mins     \* minimum sizes
 
 VARIABLE c
-Cases == {[pts |-> S, anchors |-> A, min |-> m, pref |-> p] : S \in (SUBSET (0..MaxPt)) \ {{}}, A \in SUBSET (0..MaxPt), m \in Mins, p \in {"bottom", "top"}}
-Init == c \in Cases /\ c.anchors \subseteq c.pts
+Cases == UNION {{[pts |-> S, anchors |-> A, min |-> m, pref |-> p] : A \in SUBSET S, m \in Mins, p \in {"bottom", "top"}} : S \in (SUBSET (0..MaxPt)) \ {{}}}
+Init == c \in Cases
 Next == UNCHANGED c
 R == Filter(c.pts, c.min, c.anchors, c.pref)
 
